@@ -70,6 +70,11 @@ CLAIMED = {
         "text": "Only the structural clauses of the save/load half are decided: in both dtype-conversion blocks every arm must rebind the array by plain assignment to an expression of the requested dtype (an augmented assignment is a violation) with the scale factor in the right direction; every subscript of the unsigned-maximum table must be an np.dtype and the table must map uintN to 2**N-1; the axes string written by save_tiff must equal (X,Y,Z,C) permuted by the constant moveaxis applied before writing, the reader's argsort over its axis table must map that string back to (X,Y,Z,C), the fallback layout must be the writer's, rasterised frames are stacked along axis 0 and sampled at voxel centres. What tifffile/pynrrd persist and the rasteriser's voxel membership are not decided.",
         "note": ASSUME,
     },
+    "C16": {
+        "technique": "abstract shape inference (rank of concatenate operands), argument-discipline check over the call-graph slice, symmetric-trim rule, write-set / interior-slice lint, axis-family agreement, ownership interpretation",
+        "text": "Structural clauses of resampling and smoothing: every operand of np.concatenate in the resamplers has rank >= 1; generic code reachable from the resampler/smoother/assembler calls soma() only with type_check=False; the assembler drops one sample iff the branch's start (resp. end) point duplicates the tree node, none otherwise, and then appends the end node; smoothers store only x,y,z and only the interior 1:-1 of a detached copy; x,y,z and r are interpolated at the same positions over the same abscissae; n = ceil(L/spacing)+1 positions from 0 to L (linspace / arange + end point), per branch of the branch tree; re-assembly numbers nodes by output position with parent = predecessor, first node on the start node's new id, children continuing from the end node's new id; inputs untouched, results fresh. Equal spacing, 'length never grows' and linear radii as numeric statements are not decided.",
+        "note": ASSUME,
+    },
 }
 
 NOT_BUILT = "check not built yet in this round (planned, see DESIGN.md section 4); nothing is claimed"
